@@ -7,6 +7,8 @@ import (
 	"path/filepath"
 	"sort"
 	"strings"
+	"sync"
+	"sync/atomic"
 	"testing"
 
 	"github.com/anyproto/any-sync/commonspace/headsync/headstorage"
@@ -300,16 +302,39 @@ func TestReplay(t *testing.T) {
 	if len(bs) == 0 {
 		hpanic("no behaviours in VERIF_BEHAVIOURS")
 	}
-	steps := 0
-	for k, b := range bs {
-		j := &judge{rep: rep, replay: map[string]any{"kind": "behaviour", "behaviour": b}}
-		steps += runBehaviour(j, b)
-		rep.AddReplayed(1)
-		if k == 0 {
-			rep.Sample(map[string]any{"behaviour": b.Name, "steps": len(b.Steps), "first": fmt.Sprintf("%s(%s,%s)", b.Steps[0].A, b.Steps[0].P, b.Steps[0].I)})
-		}
+	var steps atomic.Int64
+	var wg sync.WaitGroup
+	var perr atomic.Value
+	ch := make(chan *behaviour)
+	for wk := 0; wk < vfutil.EnvInt("VERIF_PAR", 6); wk++ {
+		wg.Add(1)
+		go func() {
+			defer wg.Done()
+			defer func() {
+				if p := recover(); p != nil {
+					perr.CompareAndSwap(nil, fmt.Sprint(p))
+					for range ch {
+					}
+				}
+			}()
+			for b := range ch {
+				j := &judge{rep: rep, replay: map[string]any{"kind": "behaviour", "behaviour": b}}
+				steps.Add(int64(runBehaviour(j, b)))
+				rep.AddReplayed(1)
+			}
+		}()
 	}
-	rep.AddSteps(steps)
+	for _, b := range bs {
+		ch <- b
+	}
+	close(ch)
+	wg.Wait()
+	if e := perr.Load(); e != nil {
+		panic(e)
+	}
+	b0 := bs[0]
+	rep.Sample(map[string]any{"behaviour": b0.Name, "steps": len(b0.Steps), "first": fmt.Sprintf("%s(%s,%s)", b0.Steps[0].A, b0.Steps[0].P, b0.Steps[0].I)})
+	rep.AddSteps(int(steps.Load()))
 	rep.SetExtra("behaviours", len(bs))
 	runScenarios(rep, "")
 }
